@@ -127,6 +127,10 @@ func (eng) Cases(seed uint64, tier string) []core.CaseDesc {
 		add(cfg{Kind: "burst", PushMs: -1, NoSchema: i%2 == 1}, seed*79+uint64(i))
 		add(cfg{Kind: "downtime", PushMs: []int{1, 20, -1}[i%3], NoSchema: i%2 == 1, Shallow: i%4 == 3}, seed*83+uint64(i))
 	}
+	// a canceled client mutation whose reply carries a local change not pushed yet
+	for i := 0; i < 4; i++ {
+		add(cfg{Kind: "cancelreply", PushMs: 100, NoSchema: i%2 == 1, Shallow: i/2 == 1}, seed*97+uint64(i))
+	}
 	// a client Remove answered while a local Remove of the same state is in flight
 	for i := 0; i < 2; i++ {
 		add(cfg{Kind: "inflight", PushMs: 20, NoSchema: i%2 == 1}, seed*89+uint64(i))
@@ -279,6 +283,9 @@ func (eng) Run(c core.CaseDesc, tier string) *core.CaseResult {
 		return res
 	case "inflight":
 		runInflight(res, c, cf, r, src, tr, p)
+		return res
+	case "cancelreply":
+		runCancelReply(res, c, cf, r, src, p)
 		return res
 	case "downtime":
 		runDowntime(res, c, cf, r, src, p)
@@ -564,6 +571,51 @@ func runBurst(res *core.CaseResult, c core.CaseDesc, cf cfg, r *rand.Rand, src *
 	}
 	res.Key("burst", cf.NoSchema, c.Seed)
 	res.Sample = map[string]any{"kind": "burst", "rounds": 12}
+}
+
+// runCancelReply: the source changes locally and, before the (throttled) push
+// of that change, a mutation made through the network machine is canceled by
+// the source (E requires the inactive A). The reply is the only message that
+// carries the local change; afterwards the source is quiet.
+func runCancelReply(res *core.CaseResult, c core.CaseDesc, cf cfg, r *rand.Rand, src *am.Machine, p *rpcloop.Pair) {
+	nm := p.C.NetMach
+	for round := 0; round < 6; round++ {
+		if src.Is1("A") {
+			src.Remove1("A", nil)
+		}
+		if why := stabilize(p, cf); why != "" {
+			res.Inconclusive = why
+			return
+		}
+		// local change(s), not pushed yet
+		n := 1 + r.IntN(3)
+		for i := 0; i < n; i++ {
+			st := []string{"B", "C", "D"}[r.IntN(3)]
+			if src.Is1(st) && st != "B" && r.IntN(2) == 0 {
+				src.Remove1(st, nil)
+			} else {
+				src.Add1(st, nil)
+			}
+		}
+		rs := nm.Add1("E", am.A{"uid": rec.NextUid()})
+		res.Evals++
+		if rs == am.Canceled {
+			res.Count("canceled_client_mutations_with_a_pending_local_change", 1)
+		}
+		why := stabilize(p, cf)
+		res.Evals++
+		if why != "" {
+			res.Inconclusive = why
+			return
+		}
+		if d := compare(src, p.C, cf.Shallow); d != "" {
+			res.Violate("C09/diverged/after-canceled-reply/"+cf.mode(), fmt.Sprintf(
+				"a local change of the source was followed by a client mutation the source answered %s; after quiescence the mirror differs: %s", rec.ResStr(rs), d),
+				map[string]any{"config": cf, "round": round, "source": src.StringAll(), "mirror": nm.StringAll(), "hooks": am.VerifHookHits()})
+			return
+		}
+	}
+	res.Key("cancelreply", cf.NoSchema, cf.Shallow)
 }
 
 // runInflight: a Remove made through the network machine reaches the source
